@@ -270,14 +270,15 @@ theorem progress_keeps {L : Option J} {A0 : Option Kvs} {k : String} :
         exact progress_keeps pc l1 _ e (by simpa [get?] using hg) hk1 hav
           (fun p hp => hown p (by simp [progressPrefixes, hp])) h2
       | _ => rw [he] at hobj; simp [isObj] at hobj
-  | .status f :: pc, l, A, e, hl, hk, hav, hown, h => by
+  | .status f t :: pc, l, A, e, hl, hk, hav, hown, h => by
     simp only [progressClear] at h
     obtain ⟨e1, h1, h2⟩ := bind_ok h
     simp only [clearLeaf] at h1
     obtain ⟨e0, h0, h3⟩ := bind_ok h1
     obtain ⟨hd, hhd, hne⟩ := hav f List.mem_cons_self
-    have g0 := remove_get? f (.obj l) e0 hd "metadata" hhd hne (liftD_ok h0)
-    have o0 := remove_isObj f (.obj l) e0 rfl (liftD_ok h0)
+    obtain ⟨td, thd, tne⟩ := hav t (List.mem_cons_of_mem _ List.mem_cons_self)
+    have g0 : e0.get? "metadata" = (J.obj l).get? "metadata" := remove2_get? hhd thd hne tne (liftD_ok h0)
+    have o0 : e0.isObj = true := remove2_isObj rfl (liftD_ok h0)
     cases e0 with
     | obj l0 =>
       cases hm : metaOK (.obj l0) with
@@ -291,7 +292,7 @@ theorem progress_keeps {L : Option J} {A0 : Option Kvs} {k : String} :
           rw [g1]
           have : lookup "metadata" l0 = N L A := by simpa [get?, hl] using g0
           rw [this, cleanM_N]
-        exact progress_keeps pc l1 A e this hk (fun g hg => hav g (List.mem_cons_of_mem _ hg))
+        exact progress_keeps pc l1 A e this hk (fun g hg => hav g (List.mem_cons_of_mem _ (List.mem_cons_of_mem _ hg)))
           (fun p hp => hown p (by simpa [progressPrefixes] using hp)) h2
     | _ => simp [isObj] at o0
 
